@@ -112,6 +112,58 @@ CLAIMED.update({
     },
 })
 
+CLAIMED.update({
+    "C07": {
+        "text": "Model/PatSpec.v states the documented meaning of a pattern text (`documented`) without reference to the loader; "
+                "single_pattern_exact proves that for EVERY pattern text and EVERY document string the predicate the loader builds "
+                "(plain search, or one-needle case-insensitive automaton, or regex) is true exactly when the documented relation "
+                "holds; batched_list_exact that a list of patterns is true exactly when some member is, however the parser "
+                "partitions the members into needles / case-insensitive needles / regex sets / rest; ci_is_ascii_folding and "
+                "i_prefix_is_case_insensitive the case rules (fix D12); aho_search_spec / slow_aho_spec the meaning of the automaton "
+                "forms. All needles over {a,b,A} to length 2-3 in six surface forms x haystacks to length 3-5, mixed lists and long "
+                "overlapping / multi-byte strings are run on the crate against an independent Python reference.",
+        "note": TB + "aho-corasick itself is modelled by its meaning (all occurrences of all needles, ASCII case folding); regexes are an oracle on both sides.",
+        "technique": "Coq proof (case analysis of the pattern syntax; invariant over the list partition) + exhaustive small-alphabet differential sweep",
+    },
+    "C11": {
+        "text": "Model/Repr.v defines when two values have the same logical content (Int n ~ UInt n for 0 <= n <= i64::MAX, "
+                "congruence on arrays and objects); compare_values_respects, casts_respect and find_respects show the comparison "
+                "table, the casts, the decimal text and path lookup cannot tell them apart, solve_respects_representation lifts this "
+                "to the whole solver (matrix forms included) and verdict_respects_representation to matches(); adapters_agree states "
+                "what the YAML/JSON and Rust-integer adapters produce. On the crate every document is rendered as serde_yaml "
+                "Mapping, serde_json Value, HashMap<String, Json>, HashMap<String, T / Option<T> / Vec<T>> (u64 and i64), a "
+                "hand-written Document and the harness tree; verdicts must agree.",
+        "note": TB + "PARTIAL: that the Rust generic AsValue/Array/Object impls produce what Model/Repr.v says is sampled by the representation runs, not proved; HashSet arrays are not exercised.",
+        "technique": "Coq proof (equivalence relation respected by the solver, size induction) + multi-representation differential runs on the crate",
+    },
+})
+
+CLAIMED.update({
+    "C12": {
+        "text": "In the model loading and matching are functions, and the ONLY nondeterminism of the crate -- the iteration order "
+                "of its hash maps -- is an explicit input `ord` of the optimiser model. Proved: switch sets without shake and matrix "
+                "never consult a hash map (optimise_order_irrelevant), an optimised rule is never optimised again (optimise_once), "
+                "maps with at most one key have one order and any order yields the same entries (amap_iter_single / amap_iter_perm); "
+                "the order-dependent known classes are refuted by two explicit orders (D16 in C01, D17, D22). The correspondence check "
+                "enumerates ALL hash orders in the model and the crate's result must be one of the model's. On the crate: repeated "
+                "optimise calls in one process and in a second process, 8-16 threads sharing one Rule, forward/reverse document "
+                "order, and a source audit for interior mutability.",
+        "note": TB + "PARTIAL: order independence of shake_1 / matrix outside D16/D17/D22 is not proved (tied by the all-orders correspondence); thread interleavings and other processes cannot be exhibited by a Gallina model and are exercised on the crate only. The theorems quantify over pure order functions (the same key list gets the same order at every call site); the runner explores call sites independently.",
+        "technique": "hash-map order as an explicit oracle in the Coq model (theorems + refutations) + all-orders differential runs + repeated/threaded runs on the crate",
+    },
+    "C14": {
+        "text": "Model/Serial.v states what a Rule serialises to as a YAML value (flag, raw condition, raw identifiers in hash-map "
+                "order, examples). detection_roundtrip / rule_roundtrip prove that loading that value yields the same condition tree, "
+                "the same identifier trees under the same names (for every write order of the identifier map), the same examples and "
+                "the written flag, hence -- by ids_as_map -- the same verdict on every document; this covers rules serialised after "
+                "optimisation. On the crate every generated rule (incl. a quoting-sensitive family in value, member, key and example "
+                "position) is serialised with serde_yaml::to_string, re-loaded and compared (trees, examples, verdicts), optimised "
+                "and not, and from_str is compared with from_value (known finding D23).",
+        "note": TB + "PARTIAL by nature: the YAML text layer (quoting/printing/parsing) is serde_yaml's and is not modelled; that it is the identity on the values rules hold is checked on every generated rule, not proved.",
+        "technique": "Coq proof (loader invariance under reordering of the identifier map; solver depends on identifiers only as a map) + serialise/reload differential runs on the crate",
+    },
+})
+
 DEFAULT_REASON = ("not claimed yet in this commit: the Coq model covers it (DESIGN.md section 7) but its property theorems "
                   "and correspondence check are still being built; nothing is inapplicable in principle")
 NOT_YET = {}
